@@ -1,58 +1,381 @@
+// Command exec: correspondence + oracle stream for C04 (failed execution leaves no trace).
+//
+// Every case builds a fresh single-node chain with four copies of the interpreter contract
+// (interp.go), gives the contracts random initial storage and GAS, then adds 1-2 blocks of
+// 1-3 transactions whose scripts are call trees assembled into real NeoVM code. Printed per
+// block: the pre-state, per transaction the VM state and the notifications of its
+// AppExecResult, and the ledger state after the block (storage of every contract, GAS
+// balances incl. the fee payer, the Policy setting read through the native cache).
+// Oracle: the real result against the transactional specification (model.go specRun).
 package main
 
 import (
+	"bytes"
 	"fmt"
-	"os"
-	"time"
+	"sort"
+	"strings"
 
 	"github.com/nspcc-dev/neo-go/pkg/core/transaction"
+	"github.com/nspcc-dev/neo-go/pkg/io"
+	"github.com/nspcc-dev/neo-go/pkg/smartcontract/callflag"
+	"github.com/nspcc-dev/neo-go/pkg/vm/emit"
+	"github.com/nspcc-dev/neo-go/pkg/vm/vmstate"
+
+	"verif/harness/internal/hx"
+	"verif/harness/internal/prng"
 )
 
-func put(k, v int) *Node    { return &Node{Op: nPut, K: k, V: v} }
-func del(k int) *Node       { return &Node{Op: nDel, K: k} }
-func notify(e int) *Node    { return &Node{Op: nNotify, K: e} }
-func throw() *Node          { return &Node{Op: nThrow} }
-func abort() *Node          { return &Node{Op: nAbort} }
-func local(b ...*Node) *Node { return &Node{Op: nLocal, Body: b} }
-func call(c, fl int, b ...*Node) *Node {
-	return &Node{Op: nCall, C: c, Fl: fl, Body: b}
-}
-func try(body, catch, fin []*Node) *Node {
-	return &Node{Op: nTryC, Body: body, HasCatch: catch != nil, Catch: catch, HasFin: fin != nil, Fin: fin}
-}
-func L(n ...*Node) []*Node { return n }
+const sysFee = 10_0000_0000
 
-func probe() {
-	t0 := time.Now()
+// ---------- store <-> observation ----------
+
+type triple struct{ o, k, v int }
+
+func (v *env) triples(s *snapshot) []triple {
+	var res []triple
+	for _, e := range s.store {
+		res = append(res, triple{e.c, e.k, e.v})
+	}
+	for _, a := range []int{0, 1, 2, 3, extAcc, senderAcc} {
+		if g := s.gas[a]; g != nil && g.Sign() != 0 {
+			res = append(res, triple{gasTab, a, int(g.Int64())})
+		}
+		if n := s.neo[a]; n != nil && n.Sign() != 0 {
+			res = append(res, triple{gasTab + 1, a, int(n.Int64())})
+		}
+	}
+	res = append(res, triple{policyTab, 0, int(s.feePB)})
+	sortTriples(res)
+	return res
+}
+
+func sortTriples(t []triple) {
+	sort.Slice(t, func(a, b int) bool {
+		if t[a].o != t[b].o {
+			return t[a].o < t[b].o
+		}
+		return t[a].k < t[b].k
+	})
+}
+
+func triplesText(t []triple) string {
+	var b bytes.Buffer
+	fmt.Fprintf(&b, "%d", len(t))
+	for _, e := range t {
+		fmt.Fprintf(&b, " %d %d %d", e.o, e.k, e.v)
+	}
+	return b.String()
+}
+
+func storeOf(t []triple) *wnode {
+	var l *wnode
+	for _, e := range t {
+		l = l.set(mkey{e.o, e.k}, e.v)
+	}
+	return l
+}
+
+// triplesOf renders a model store the way the Lean driver's showStore does.
+func triplesOf(l *wnode) []triple {
+	var res []triple
+	for k := range l.keys() {
+		if v, ok := l.get(k); ok {
+			if (k.o == gasTab || k.o == gasTab+1) && v == 0 {
+				continue
+			}
+			res = append(res, triple{k.o, k.k, v})
+		}
+	}
+	sortTriples(res)
+	return res
+}
+
+func sameEvents(a, b []event) bool {
+	if len(a) != len(b) {
+		return false
+	}
+	for i := range a {
+		if a[i] != b[i] {
+			return false
+		}
+	}
+	return true
+}
+
+func burn(l *wnode, fee int) *wnode {
+	b, _ := l.get(mkey{gasTab, senderAcc})
+	b -= fee
+	if b < 0 {
+		b = 0
+	}
+	return l.set(mkey{gasTab, senderAcc}, b)
+}
+
+// ---------- one case ----------
+
+type txPlan struct {
+	tree   []*Node
+	hasFee bool
+}
+
+func simpleTx(r *prng.R) txPlan {
+	return simpleTxFixed(r.Intn(numContracts), r.Intn(4), r.Range(1, 9))
+}
+
+func planText(p txPlan) string { return treeText(p.tree) }
+
+// setup gives the contracts random initial storage and GAS (one block).
+func (v *env) setup(r *prng.R) {
+	var txs []*transaction.Transaction
+	for i := 0; i < numContracts; i++ {
+		var prog []*Node
+		for k := 0; k < 4; k++ {
+			if r.Chance(2, 5) {
+				prog = append(prog, &Node{Op: nPut, K: k, V: r.Range(1, 9)})
+			}
+		}
+		if len(prog) > 0 {
+			script := v.w.compileEntry([]*Node{{Op: nCall, C: i, Fl: 15, Body: prog}})
+			txs = append(txs, v.newTx(script, sysFee, false))
+		}
+		if amt := r.Intn(21); amt > 0 && r.Chance(3, 4) {
+			w := io.NewBufBinWriter()
+			emit.AppCall(w.BinWriter, v.w.gas, "transfer", callflag.All, v.comm.ScriptHash(), v.w.hashes[i], int64(amt), nil)
+			tx := transaction.New(w.Bytes(), 0)
+			tx.Nonce = v.nextNonce()
+			tx.ValidUntilBlock = v.bc.BlockHeight() + 1
+			txs = append(txs, v.e.SignTx(v.tb, tx, sysFee, v.comm))
+		}
+	}
+	if len(txs) == 0 {
+		return
+	}
+	v.e.AddNewBlock(v.tb, txs...)
+	for _, tx := range txs {
+		if aer := v.e.GetTxExecResult(v.tb, tx.Hash()); aer.VMState != vmstate.Halt {
+			panic("setup transaction failed: " + aer.FaultException)
+		}
+	}
+}
+
+func runCase(o *hx.Out, k int, r *prng.R, corp []txPlan, natives bool) {
 	v := newEnv()
 	defer v.close()
-	fmt.Println("env", time.Since(t0))
-	cases := [][]*Node{
-		L(call(0, 15, put(1, 1), notify(1))),
-		L(call(0, 15, put(1, 2), try(L(call(1, 15, put(1, 3), notify(2), throw())), L(notify(3)), nil), put(2, 2))),
-		// finally + in-flight exception + call
-		L(call(0, 15, try(L(try(L(throw()), nil, L(call(1, 15, put(3, 3), notify(7)), put(3, 4)))), L(notify(8)), nil))),
-		L(try(L(call(0, 15, put(0, 5), throw())), L(notify(9)), nil)),
-		L(call(0, 15, put(0, 7), abort())),
+	v.setup(r)
+	if corp != nil {
+		v.runBlock(o, k, corp)
+		return
 	}
-	for i, c := range cases {
-		t1 := time.Now()
-		before := v.snap()
-		script := v.w.compileEntry(c)
-		tx := v.newTx(script, 50_0000_0000, false)
-		v.e.AddNewBlock(v.tb, []*transaction.Transaction{tx}...)
+	nblocks := r.Range(1, 2)
+	for b := 0; b < nblocks; b++ {
+		ntx := []int{1, 1, 1, 2, 2, 3}[r.Intn(6)]
+		var plans []txPlan
+		for i := 0; i < ntx; i++ {
+			if ntx > 1 && r.Chance(1, 3) {
+				plans = append(plans, simpleTx(r))
+				o.Count("tx:simple-neighbour")
+			} else {
+				t, fee := genTree(r, o, natives)
+				plans = append(plans, txPlan{t, fee})
+			}
+		}
+		v.runBlock(o, k, plans)
+	}
+}
+
+func (v *env) runBlock(o *hx.Out, k int, plans []txPlan) {
+	before := v.snap()
+	pre := v.triples(before)
+	var txs []*transaction.Transaction
+	var fees []string
+	for _, p := range plans {
+		tx := v.newTx(v.w.compileEntry(p.tree), sysFee, p.hasFee)
+		txs = append(txs, tx)
+		fees = append(fees, fmt.Sprint(tx.SystemFee+tx.NetworkFee))
+	}
+	o.Line(fmt.Sprintf("block %d %s %s", len(txs), strings.Join(fees, " "), triplesText(pre)), "ok")
+	o.Count(fmt.Sprintf("block:txs=%d", len(txs)))
+
+	v.e.AddNewBlock(v.tb, txs...)
+	after := v.snap()
+	post := v.triples(after)
+
+	// specification side (Go port, cross-checked against Lean by the `spec`/`specend` lines)
+	specSt, implSt := storeOf(pre), storeOf(pre)
+	for _, tx := range txs {
+		specSt = burn(specSt, int(tx.SystemFee+tx.NetworkFee))
+		implSt = burn(implSt, int(tx.SystemFee+tx.NetworkFee))
+	}
+	for i, p := range plans {
+		tx := txs[i]
 		aer := v.e.GetTxExecResult(v.tb, tx.Hash())
-		after := v.snap()
 		ev, odd := v.eventsOf(aer, tx.Sender())
-		fmt.Printf("case %d: %s\n  %s fault=%q\n  before %s\n  after  %s\n  events %s odd=%v\n  gas sender %s -> %s (sys %d net %d) %v\n", i, treeText(c),
-			aer.VMState, aer.FaultException, storeText(before.store), storeText(after.store), eventsText(ev), odd,
-			before.gas[-1], after.gas[-1], tx.SystemFee, tx.NetworkFee, time.Since(t1))
+		st := aer.VMState.String()
+		if strings.Contains(aer.FaultException, "gas limit") || strings.Contains(aer.FaultException, "insufficient gas") {
+			st = "GASLIMIT"
+			o.Fail("harness-gas-limit", k, "%s: %s", planText(p), aer.FaultException)
+		}
+		if len(odd) > 0 {
+			st += " odd=" + strings.Join(odd, ",")
+			o.Fail("odd-event", k, "%s: %v", planText(p), odd)
+		}
+		o.Line("tx | "+planText(p), fmt.Sprintf("%s ev %s", st, eventsText(ev)))
+		realHalt := aer.VMState == vmstate.Halt
+		if realHalt {
+			o.Count("result:HALT")
+		} else {
+			o.Count("result:FAULT")
+			o.Count("fault:" + faultClass(aer.FaultException))
+		}
+		var effEv []event
+		if realHalt {
+			effEv = ev
+		}
+
+		so := specRun(specSt, p.tree)
+		specSt = so.st
+		mo := implRun(implSt, p.tree)
+		implSt = mo.st
+		hs := "FAULT"
+		if so.halt {
+			hs = "HALT"
+		}
+		o.Line("spec", fmt.Sprintf("%s ev %s", hs, eventsText(so.ev)))
+
+		if realHalt != so.halt || !sameEvents(effEv, so.ev) {
+			o.Fail(classify(p.tree, realHalt == mo.halt && sameEvents(ev, mo.raw), "tx"), k,
+				"tx %d of block: real %s ev %s, spec %s ev %s; tree %s", i, st, eventsText(effEv), hs, eventsText(so.ev), planText(p))
+		}
+		// direct form of the first sentence of the property, independent of the specification:
+		// a block consisting of one FAULTed transaction changes nothing but the fee payer's GAS.
+		if len(plans) == 1 && !realHalt {
+			want := triplesOf(burn(storeOf(pre), int(tx.SystemFee+tx.NetworkFee)))
+			if triplesText(want) != triplesText(post) {
+				o.Fail("fault-left-trace", k, "FAULTed tx changed state: before %s after %s fee %d; tree %s",
+					triplesText(pre), triplesText(post), tx.SystemFee+tx.NetworkFee, planText(p))
+			}
+		}
+		var md, nn int
+		treeStats(o, p.tree, 1, &md, &nn)
+		o.Count(fmt.Sprintf("tree:depth=%d", md))
+		o.Count("tree:nodes=" + bucket(nn))
+		fin, cat := unsafeShapes(p.tree)
+		switch {
+		case fin && cat:
+			o.Count("shape:call-in-finally+call-in-catch-with-finally")
+		case fin:
+			o.Count("shape:call-in-finally")
+		case cat:
+			o.Count("shape:call-in-catch-with-finally")
+		default:
+			o.Count("shape:safe")
+		}
+		if nn > 1 {
+			o.Seen(planText(p))
+		}
+		if k < 3 {
+			o.Sample(fmt.Sprintf("%s -> %s ev %s", planText(p), st, eventsText(ev)))
+		}
 	}
+	if len(after.odd) > 0 {
+		o.Fail("odd-storage", k, "%v", after.odd)
+	}
+	o.Line("end", "st "+triplesText(post))
+	spost := triplesOf(specSt)
+	o.Line("specend", "st "+triplesText(spost))
+	if triplesText(post) != triplesText(spost) {
+		var all []*Node
+		for _, p := range plans {
+			all = append(all, p.tree...)
+		}
+		o.Fail(classify(all, triplesText(post) == triplesText(triplesOf(implSt)), "state"), k,
+			"ledger state after block: real %s, spec %s; txs %s", triplesText(post), triplesText(spost), plansText(plans))
+	}
+	for name, n := range cov {
+		o.Add(name, n)
+		delete(cov, name)
+	}
+}
+
+func plansText(ps []txPlan) string {
+	var s []string
+	for _, p := range ps {
+		s = append(s, planText(p))
+	}
+	return strings.Join(s, " ;; ")
+}
+
+func bucket(n int) string {
+	switch {
+	case n <= 3:
+		return "01-03"
+	case n <= 8:
+		return "04-08"
+	case n <= 16:
+		return "09-16"
+	case n <= 30:
+		return "17-30"
+	}
+	return "31+"
+}
+
+func faultClass(s string) string {
+	for _, c := range []string{"ABORT", "unhandled exception", "missing call flags", "not allowed in dynamic scripts",
+		"can not be retrieved in dynamic scripts", "context unload callback failed", "instruction offset is out of range",
+		"invalid offset for TRY", "invalid committee signature", "gas limit"} {
+		if strings.Contains(s, c) {
+			return strings.ReplaceAll(c, " ", "-")
+		}
+	}
+	return "other"
+}
+
+// classify names the shape of a deviation of the real code from the specification.
+// The implementation model is proved equal to the specification on `safe` trees
+// (Props/C04 impl_refines_spec_partial); its known deviations live in the complement, so a
+// deviation is "known" only if the real code agrees with the implementation model AND the
+// tree has the corresponding unsafe shape.
+func classify(t []*Node, realEqImpl bool, what string) string {
+	fin, cat := unsafeShapes(t)
+	if !realEqImpl || (!fin && !cat) {
+		return "atomicity-" + what
+	}
+	switch {
+	case fin && cat:
+		return "catch-finally-mixed"
+	case cat:
+		return "catch-finally-unwrapped"
+	}
+	return "finally-call-rollback"
 }
 
 func main() {
-	if len(os.Args) > 1 && os.Args[1] == "probe" {
-		probe()
-		return
+	f := hx.ParseFlags()
+	o := hx.NewOut(f.Out)
+	defer o.Close()
+	corp := corpus()
+	n := f.N(len(corp)+260, len(corp)+6000)
+	for k := 0; k < n; k++ {
+		if !f.Want(k) {
+			continue
+		}
+		r := prng.ForCase(f.Seed, k)
+		o.Case(k)
+		var c []txPlan
+		if k < len(corp) {
+			c = corp[k]
+			o.Count("case:corpus")
+		} else {
+			o.Count("case:generated")
+		}
+		func() {
+			defer func() {
+				if e := recover(); e != nil {
+					o.Line("harness-error", fmt.Sprint(e))
+					o.Fail("harness-error", k, "%v", e)
+				}
+			}()
+			runCase(o, k, r, c, true)
+		}()
 	}
 }
